@@ -85,7 +85,7 @@ CLAIMED = {
         technique="finite abstract evaluation (truth table over comparison/membership atoms) + path rules",
     ),
     "C18": dict(
-        category="proof",
+        category="other",
         text="FallbackClient is decided by structure and path rules: writers make one call on caches[0] of their own name with arguments in Client's order and never iterate; readers loop over self.caches in order, call the same-named method once per cache, return at the first hit and consult nothing afterwards; each hit test is evaluated on the delegate's miss value.",
         note="Trusted: CPython ast; path interpreter; caches have Client's interface. One known finding (gets hit test).",
         technique="structural delegation rules + path rule on the reader loops",
